@@ -202,7 +202,17 @@ func checkC10(sc *Scenario, res *RunResult, t *Truth) []Violation {
 			}
 			st, okS := sn.States[rep]
 			if okS && st.Status != "Running" && st.Health == "Ready" {
-				// the subjects never exit by themselves: not Running means stopped or restarting
+				// not Running means stopped or restarting - unless the command ended by itself
+				// (the crash arm): the statement does not say what becomes of its readiness
+				var last *Inst
+				for _, in := range t.ByRep[rep] {
+					if in.ExecSeq < sn.Seq {
+						last = in
+					}
+				}
+				if last != nil && last.ExitSeq >= 0 && last.ExitSeq < sn.Seq && len(last.Kills) == 0 && isTerminalStatus(st.Status) {
+					continue
+				}
 				vs = append(vs, Violation{"C10", "ready-while-not-running", "status=" + st.Status, fmt.Sprintf("%s is reported Ready at t=%v while its status is %s: readiness is forgotten when a process is stopped or restarted", rep, sn.T, st.Status), sn.Seq})
 				break
 			}
